@@ -988,7 +988,7 @@ package router
 //@   props C05 C10
 //@   returnsite : [shutdown-only-for-the-realms-own-goodbye] result0 ==> goodbye == shutdownGoodbye || goodbye == wamp.NoGoodbye
 //@   requires r != nil && r.broker != nil && r.dealer != nil && !isnil(r.log) && !isnil(r.broker.log) && !isnil(r.dealer.log) && r.broker.filterFactory != nil && sess != nil && !isnil(sess.Peer)
-//@   recvsite : [peers-deliver-well-formed-messages] assume wfMessage(m)
+//@   recvsite wamp.Message : [peers-deliver-well-formed-messages] assume wfMessage(m)
 //@   callsite Goodbye : [goodbye-set-before-done-closes] assume-after result != nil
 //@   callsite publish : [gate] arg1 == sess && (isnil(r.authorizer) || sess == r.metaSess || authzAllowed(r, sess, box(arg2)))
 //@   callsite subscribe : [gate] arg1 == sess && (isnil(r.authorizer) || sess == r.metaSess || authzAllowed(r, sess, box(arg2)))
@@ -1023,8 +1023,8 @@ package router
 //@   requires r != nil && !isnil(client) && !isnil(r.log)
 //@   callcount authClient arg1
 //@   callcount handleSession arg1
-//@   recvsite : assume [realm-chosen-on-router-goroutine] isnil(m) ==> realm != nil
-//@   recvsite : stable realm err
+//@   recvsite error : assume [realm-chosen-on-router-goroutine] isnil(m) ==> realm != nil
+//@   recvsite error : stable realm err
 //@   callsite authClient : [authenticated-under-the-router-assigned-id] arg1 == sid && arg2 == client && arg0 == realm
 //@   callsite handleSession : [attached-only-after-authentication] isnil(err) && welcome != nil
 //@   callsite handleSession : [authenticated-once-under-this-id] calls(authClient, sid) == old(calls(authClient, sid)) + 1
